@@ -63,7 +63,8 @@ Fixpoint run_bitops (ops : list bitop) (s : src) : list string :=
     | OpReader n =>
         if (N.of_nat (length (bits s)) mod 8 =? 0)%N then
           let k := N.min n (N.of_nat (length (bits s)) / 8) in
-          ("R:" ++ show_N k) :: run_bitops rest (set_bits s (skipn (8 * N.to_nat k) (bits s)))
+          if (k <? n)%N then ["R:" ++ show_N k]      (* the inner reader ended or failed first: the history stops here *)
+          else ("R:" ++ show_N k) :: run_bitops rest (set_bits s (skipn (8 * N.to_nat k) (bits s)))
         else "R:unaligned" :: run_bitops rest s
     | OpFin => [show_out (fun _ => "ok") (finish_rbsp s)]
     | OpFinSei => [show_out (fun _ => "ok") (finish_sei_payload s)]
